@@ -81,3 +81,102 @@ CONTRACTS["programs:ProgramSet.get_prop_coverage#per_program"] = dict(
         ("C11+C13.final_cap_at_one", "prop_coverage['prog'][0] <= 1"),
     ],
     defined_props=["C11", "C13"])
+
+
+# ---- ProgramSet.get_capacities / get_alloc: bodies of `for prog in self.programs.values()` for an arbitrary program.
+# Precedence (C11): capacity overwrite > spending overwrite > program-book spending; overwrites are stepped ('previous').
+def _cap_env(it):
+    from pyvc.interp import PyObjV
+    from pyvc.core import Opaque
+    from pyvc import source
+
+    prog = PyObjV("Program", source.load("programs"), {"name": "prog"})
+    return {"prog": prog, "capacities": {}, "alloc": {}, "instructions": PyObjV("ProgramInstructions", source.load("programs"), {"capacity": Opaque("capacity dict"), "alloc": Opaque("alloc dict")}),
+            "self": Opaque("progset")}
+
+
+def _ghost_capacity(it, tvec=None, dt=None, spending=None):
+    """Program.get_capacity seen from its caller: CAP_FROM_SPEND when it is handed the allocated spending (the very array), CAP_NO_SPEND when
+    it is handed None (program-book spending); any other argument is not what the property allows"""
+    if spending is None:
+        return it.ghost_env["CAP_NO_SPEND"]
+    g = it.ghost_env["SPEND"]
+    if getattr(spending, "get", None) is not None and spending.get(0) is g.get(0):
+        return it.ghost_env["CAP_FROM_SPEND"]
+    from pyvc.core import Unsupported
+    raise Unsupported("get_capacity called with a spending argument that is neither None nor the allocated spending")
+
+
+CONTRACTS["programs:ProgramSet.get_capacities#per_program"] = dict(
+    schema=schema, fragment={"iter": "self.programs.values()"}, make_env=_cap_env,
+    params={"tvec": "arr1:1", "dt": "real"},
+    ghost_params={"NO_OVERWRITE": "bool", "ONE_OFF": "bool", "HAS_ALLOC": "bool", "SPEND": "arr1:1", "CAP_FROM_SPEND": "arr1:1", "CAP_NO_SPEND": "arr1:1", "OV": "arr1:1"},
+    stubs={"prog.name not in instructions.capacity": "NO_OVERWRITE", "prog.is_one_off": "ONE_OFF", "prog.name in alloc": "HAS_ALLOC", "alloc[prog.name]": "SPEND",
+           "instructions.capacity[prog.name].interpolate(tvec, method='previous')": "OV"},
+    call_stubs={"prog.get_capacity": _ghost_capacity},
+    requires=["dt > 0"],
+    ensures=[
+        ("C11.capacity_overwrite_takes_precedence_and_is_per_step", "implies(not NO_OVERWRITE, capacities['prog'][0] == OV[0] * (dt if ONE_OFF else 1))"),
+        ("C11.otherwise_capacity_follows_from_the_allocated_spending", "implies(NO_OVERWRITE and HAS_ALLOC, capacities['prog'][0] == CAP_FROM_SPEND[0])"),
+        ("C11.without_allocation_capacity_follows_from_program_book_spending", "implies(NO_OVERWRITE and not HAS_ALLOC, capacities['prog'][0] == CAP_NO_SPEND[0])"),
+    ],
+    defined_props=["C11"])
+
+CONTRACTS["programs:ProgramSet.get_alloc#per_program"] = dict(
+    schema=schema, fragment={"iter": "self.programs.values()"}, make_env=_cap_env,
+    params={"tvec": "arr1:1"},
+    ghost_params={"NO_OVERWRITE": "bool", "BOOK": "arr1:1", "OV": "arr1:1"},
+    stubs={"prog.name not in instructions.alloc": "NO_OVERWRITE", "prog.get_spend(tvec)": "BOOK",
+           "instructions.alloc[prog.name].interpolate(tvec, method='previous')": "OV"},
+    ensures=[
+        ("C11+C09.spending_overwrite_takes_precedence_and_is_stepped", "implies(not NO_OVERWRITE, alloc['prog'][0] == OV[0])"),
+        ("C11.otherwise_program_book_spending", "implies(NO_OVERWRITE, alloc['prog'][0] == BOOK[0])"),
+    ],
+    defined_props=["C11", "C09"])
+
+
+
+# ---- replay of the three per-program fragments on real collaborators that answer with the ghost values
+class _NS:
+    pass
+
+
+class _Series:
+    def __init__(self, v):
+        self.v = v
+
+    def interpolate(self, tvec, method=None):
+        import numpy as np
+
+        return np.array(self.v, dtype=float).copy()
+
+
+def _prep_progset(which):
+    def prep(env):
+        import numpy as np
+
+        arr = lambda k: np.array(env.get(k, [0.0]), dtype=float)
+        prog = _NS()
+        prog.name = "prog"
+        prog.is_one_off = bool(env.get("ONE_OFF"))
+        prog.get_capacity = lambda tvec=None, dt=None, spending=None: (arr("CAP_NO_SPEND") if spending is None else arr("CAP_FROM_SPEND")).copy()
+        prog.get_spend = lambda tvec: arr("BOOK").copy()
+        prog.get_prop_covered = lambda tvec, cap, n: arr("PC").copy()
+        instr = _NS()
+        over = {} if env.get("NO_OVERWRITE") else {"prog": _Series(env.get("OV", [0.0]))}
+        instr.capacity, instr.alloc, instr.coverage = dict(over), dict(over), dict(over)
+        env["prog"], env["instructions"], env["self"] = prog, instr, None
+        if which == "capacities":
+            env["alloc"] = {"prog": arr("SPEND")} if env.get("HAS_ALLOC") else {}
+            env["capacities"] = {}
+        elif which == "alloc":
+            env["alloc"] = {}
+        else:
+            env["capacities"], env["num_eligible"], env["prop_coverage"] = {"prog": arr("PC")}, {"prog": arr("PC")}, {}
+
+    return prep
+
+
+CONTRACTS["programs:ProgramSet.get_capacities#per_program"]["replay_prepare"] = _prep_progset("capacities")
+CONTRACTS["programs:ProgramSet.get_alloc#per_program"]["replay_prepare"] = _prep_progset("alloc")
+CONTRACTS["programs:ProgramSet.get_prop_coverage#per_program"]["replay_prepare"] = _prep_progset("coverage")
